@@ -210,11 +210,32 @@ func (st *State) Marshal(w io.Writer) error {
 	return nil
 }
 
-// Unmarshal reads and parses a previous dump of the state.
-// All the parsed key/values are added to the store. As of now,
-// Unmarshal does not empty the existing store from any values
-// before unmarshaling from the given reader.
+// Unmarshal reads and parses a previous dump of the state. The existing
+// store is emptied first, so that afterwards it holds exactly the dumped
+// key/values. Otherwise a Raft peer restoring a snapshot on top of a
+// non-empty state (i.e. a follower that lagged behind) would keep pins that
+// were removed in the meantime.
 func (st *State) Unmarshal(r io.Reader) error {
+	q := query.Query{
+		Prefix:   st.namespace.String(),
+		KeysOnly: true,
+	}
+	results, err := st.dsRead.Query(q)
+	if err != nil {
+		return err
+	}
+	existing, err := results.Rest()
+	if err != nil {
+		return err
+	}
+	for _, entry := range existing {
+		err := st.dsWrite.Delete(ds.NewKey(entry.Key))
+		if err != nil && err != ds.ErrNotFound {
+			logger.Error("error cleaning up datastore before unmarshaling:", err)
+			return err
+		}
+	}
+
 	dec := codec.NewDecoder(r, st.codecHandle)
 	for {
 		var entry serialEntry
